@@ -344,7 +344,7 @@ pub fn run(ctx: &mut Ctx) {
                 (f, ND::Task(KD { sent, budget: vec![x / 1013.0, (x + 2.0) / 1019.0, (x + 3.0) / 1021.0] }))
             }));
         }
-        let rounds = if ctx.thorough { 60 } else { 6 };
+        let rounds = if ctx.thorough { 120 } else { 18 };
         concurrent_family(ctx, "C01", "format-then-parse", cases, rounds, |c| roundtrip_failure(c.0, &c.1));
     }
     ctx.report.note(
